@@ -13,9 +13,10 @@ import (
 // that is passed to an operation, the set of orderings against zero ({<, =, >}) under which main
 // ends in log.Fatal* is extracted – from tests in main itself and from helper functions that receive
 // the flag value as an argument – and compared with what the operation's contract allows to reject:
-//   sync (Subtitles.Add)                 only 0   (a negative shift is the documented `-s "-2s"`)
-//   fragment (Subtitles.Fragment)        ≤ 0
-//   apply-linear-correction              ≤ 0 for each of the four instants
+//
+//	sync (Subtitles.Add)                 only 0   (a negative shift is the documented `-s "-2s"`)
+//	fragment (Subtitles.Fragment)        ≤ 0
+//	apply-linear-correction              ≤ 0 for each of the four instants
 var cliMayReject = map[string]string{
 	"syncDuration":     "=",
 	"fragmentDuration": "<=",
